@@ -165,3 +165,48 @@ PROPS["C15"] = dict(
     level_note="Trusts the sync reader as reference (its own correctness is C05/C06). Number, shape and order of requests and batch boundaries are not asserted.",
     technique="differential testing across reader front-ends under injected I/O schedules, bounded-progress and wake-accounting monitors",
 )
+
+PROPS["C03"] = dict(
+    quick=[st("quick", 75)],
+    thorough=[st("thorough", 900), st("tiny", 1500, variant="miri", hard_timeout=3000)],
+    floor=dict(quick=300, thorough=1000),
+    core=True,
+    rule="selection kernels on every data type in random physical layouts: filter (FilterBuilder with/without optimize, predicate reuse, record-batch forms; selectivities {0, 1 bit, 1/64, 1/16+-1, 1/2, 0.8n-1..+2, all-but-one, all, random}, run-structured and random masks, null predicate bits over set bits), take (8 index types, nulls with garbage underneath, duplicates, check_bounds), concat, interleave, zip/ScalarZipper, merge/merge_n, nullif, shift, slice, dictionary garbage collection, against naive definitions on the value model; BatchCoalescer histories of 1-40 push_batch / push_batch_with_filter / push_batch_with_indices / finish calls with a unique-id column and target sizes 1-300: after every call buffered-row count, completed-batch flag, exact batch sizes, ids and all columns equal the model (conservation pushed = emitted + buffered); class = (op, type class, selectivity/index class, layout, outcome)",
+    level="exploration",
+    level_text="Differential runtime check of arrow-select against 10-40 line naive definitions on the logical value model, plus an online trace checker (unique row ids => n log n conservation/order check) for the batch coalescer; thorough adds a reduced Miri run.",
+    level_note="Union x introduced null, out-of-range indices without check_bounds, coalescer batch sizes under a bypass limit and physical layout of results are not asserted.",
+    technique="differential testing against naive reference definitions; online trace checking of coalescer histories with unique ids",
+)
+
+PROPS["C06"] = dict(
+    quick=[st("quick", 90)],
+    thorough=[st("thorough", 900)],
+    floor=dict(quick=200, thorough=1000),
+    rule="(file, reader configuration) pairs: files from the C05 generator (nesting <=3, tiny pages, 1-150 row groups, offset index on/off, every encoding); ~28 configurations per file drawing projection (all/none/roots/leaves), row-group subsets in any order, RowSelections (selector- and mask-backed, built by 10 recipes incl. and_then/intersection/union/split_off, runs aligned to page and row-group borders +-1), 0-3 predicates returning true/false/null, offset, limit, batch size 1-8192, RowSelectionPolicy, page-index policies, virtual columns; run through the sync reader, the async stream and the push decoder; oracle = in-memory reference (row groups -> selection -> predicates -> offset -> limit -> projection) on one unrestricted read, batch size bound, predicates only see surviving rows in order; sections algebra (RowSelection set algebra vs Vec<bool> in all four backing pairings) and ranges (scan_ranges covers every page holding a selected row); class = (section, reader family, option class, outcome)",
+    level="exploration",
+    level_text="Differential runtime check of Parquet pushdown against a 200-line in-memory reference evaluated on a full read of the same file; RowSelection algebra against position sets.",
+    level_note="Trusts the full read (C05) and the reference model c06model.rs. Contract violations by the caller (selection length mismatch, duplicate row groups, batch size 0) and batch boundaries are not asserted.",
+    technique="differential testing against an in-memory reference model on generated files and reader configurations",
+)
+
+PROPS["C14"] = dict(
+    quick=[st("quick", 90)],
+    thorough=[st("thorough", 900)],
+    floor=dict(quick=200, thorough=1000),
+    rule="(input, decoder configuration, chunk schedule) triples for the IPC StreamDecoder, CSV Decoder, JSON Decoder, Avro single-object/Confluent Decoder and OCF Reader over a BufRead with arbitrary fill_buf slices, ParquetMetaDataPushDecoder (range delivery schedules) and the Flight decoder (Pending schedules); schedules: every single split point, ALL 2^(n-1) partitions for hand-built inputs with n <= 14 and for 12-byte windows of longer ones, one byte at a time, random multi-splits with empty chunks, all legal flush points; valid, corrupted and truncated inputs; oracle: rows, schema and outcome class equal the single-chunk run and the pull reader, no batch above the batch size; distinct schedules are counted; class = (decoder, input family, schedule family, batch size, outcome)",
+    level="exploration",
+    level_text="Metamorphic runtime check (chunking invariance) of all six incremental decoders, exhaustive over split points and over all partitions of short inputs/windows, sampled beyond.",
+    level_note="Batch boundaries, mid-stream empty CSV chunks (documented end marker), error message text under optional flushes and alignment-dependent outcomes under require_alignment(true) are not asserted.",
+    technique="metamorphic testing (chunk-schedule invariance) with exhaustive partition enumeration for short inputs",
+)
+
+PROPS["C18"] = dict(
+    quick=[st("quick", 120)],
+    thorough=[st("thorough", 1200)],
+    floor=dict(quick=100, thorough=200),
+    level="fault_enumeration",
+    rule="per generated input (must first pass a plain write/read/compare): a fault-free dry run counts the N I/O calls of the writer (IPC file/stream, Parquet ArrowWriter and AsyncArrowWriter, Avro OCF and single-object, CSV, JSON lines/array) and of the reader; then EVERY call index k (all when N <= 1000, deterministic sample above) x fault kind {Err once, Err forever, short write/read, Interrupted, Pending for async} is injected through harness-written Write/Read+Seek/ChunkReader/AsyncFileWriter wrappers, and the file is truncated at EVERY byte length; oracle: no panic, no runaway I/O, bytes accepted before the fault are a prefix of the fault-free output, all-Ok implies identical output, readers return Err or exactly the original rows, truncated Parquet/IPC files are rejected, truncated self-delimiting streams yield a prefix; the number of (call index x kind) sites actually delivered is counted; class = (format, writer|reader|truncation, fault kind, teardown, outcome)",
+    level_text="Fault enumeration: exhaustive over I/O call indices and fault kinds per input (2.5M delivered sites and 25M truncation lengths in a quick run), over inputs from the C04/C05 generators and a flat-table generator for Avro/CSV/JSON.",
+    level_note="Which call reports the error, behaviour of a writer after it has returned Err (except no panic), CSV truncation and Avro OCF byte prefixes are not asserted.",
+    technique="fault injection at every I/O call index and truncation at every byte length, with prefix/equality oracles on recorded sink contents",
+)
